@@ -2,6 +2,17 @@
 from facts import Sym, path_is, strip_generics, strip_sym, sym_arg, sym_calls, sym_is_call, sym_str, sym_through, sym_walk
 from props.common import is_plain_write, arg_syms, atomic_ops, bool_switches, callee_method_name, calls_to, crate_stats, enum_arms, gates, in_cycle, need, nonforeign_calls, one_method, orderings_in
 
+KEEP = [  # private helpers the rules name (kept as functions); every other non-exported, non-trait function is spliced into its callers
+    "AtomicCounter::flush", "AtomicCounter::new", "AtomicGauge::flush", "AtomicGauge::new",
+    "AtomicHistogram::flush", "AtomicHistogram::new", "AtomicHistogram::record", "Block::data",
+    "Block::new", "Block::push", "Client::send", "ClientSideAggregatedStorage::new",
+    "CompositeKeyName::new", "DogStatsDRecorder::new", "Forwarder::new", "Forwarder::run",
+    "ForwarderConfiguration::is_length_prefixed", "Generational::new", "Inner::new", "MetricKindMask::value",
+    "PayloadWriter::new", "PayloadWriter::write_counter", "PayloadWriter::write_distribution", "PayloadWriter::write_gauge",
+    "PayloadWriter::write_histogram", "Reservoir::drain", "Reservoir::push", "State::flush",
+    "State::get_aggregation_timestamp", "State::new", "Telemetry::new", "TelemetryUpdate::clear",
+    "WriteResult::new",
+]
 TITLE = "C10 DogStatsD aggregation conserves counts across flushes."
 CONFIGS = ["test-profile"]
 D = "metrics_exporter_dogstatsd"
@@ -167,6 +178,17 @@ def run(ctx):
             skip_nonzero = head is not None and head.bb in b.reachable(start, cut={W[0].bb} | zero_true)
             ok = head is not None and not skip_nonzero
             chk.ob("C10.b", f"{sf.path} [idle skip]", ok, ("a counter is skipped only on a path where the flushed delta was tested == 0" if skip_any else "every flushed delta is written") if ok else "a counter whose flush() returned a (possibly non-zero) delta can be skipped without sending it: the delta was already consumed from the counter, so it is lost", F[0].loc())
+            # idle bookkeeping: the mark set after an all-zero flush is taken back as soon as the counter is active again
+            idle_calls = [c for c in nonforeign_calls(sf) if c.fn is sf and "idle_counters" in repr(arg_syms(c)[0] if c.args else "") and callee_method_name(c) in ("insert", "remove", "contains", "take", "retain", "clear", "get", "replace")]
+            ins_ = [c for c in idle_calls if callee_method_name(c) in ("insert", "replace")]
+            rem_ = [c for c in idle_calls if callee_method_name(c) in ("remove", "take")]
+            chk_ = [c for c in idle_calls if callee_method_name(c) in ("contains", "get")]
+            okm = bool(ins_) and bool(rem_) and bool(chk_) and all(pf.at(c.bb) == "P" for c in ins_ + chk_) and all(pf.at(c.bb) != "P" for c in rem_)
+            # every active flush of a counter passes the un-marking before it is written
+            if okm:
+                active_start = [x for x in range(b.n) if pf.at(x) == "N" and any(pf.at(p_) != "N" for p_ in b.preds().get(x, []))]
+                okm = all(W[0].bb not in b.reachable(x, cut={c.bb for c in rem_}) or x in {c.bb for c in rem_} for x in active_start)
+            chk.ob("C10.b", f"{sf.path} [idle mark cleared on activity]", okm, "the idle mark is inserted/consulted only after an all-zero flush and removed on every flush that saw activity (the closing zero is sent again after the next burst)" if okm else f"the idle mark is not taken back when the counter becomes active again (idle-set operations: {[callee_method_name(c) for c in idle_calls]}): after the first idle period its closing zero is never sent again", sf.loc())
             # the value written is the flushed delta
             wa = arg_syms(W[0])
             v = strip_sym(wa[2])
@@ -314,6 +336,14 @@ def run(ctx):
         got = {v: [callee_method_name(c) for c in a["calls"]] for v, a in (arms or {}).items() if v != "__switch__"}
         ok = got == {"Raw": ["push"], "Sampled": ["push"]}
         chk.ob("C10.d", hr.path, ok, "record -> push on the active storage" if ok else f"record does {got}", hr.loc(), nontrivial=False)
+
+    _imports(ctx)
+
+
+def _imports(ctx):
+    from props.common import import_rules
+
+    import_rules(ctx, "C09", {"C09.a", "C09.b", "C09.c"}, "C10.e", "imported from C09 (what the agent socket receives is these messages, correctly framed): placeholder / length-prefix invariant, complete shadow length in the histogram splitter, limit test and header — otherwise a flushed value is lost in a torn frame or the forwarder thread panics", floor=8)
 
 
 def run_config(ctx):
